@@ -17,6 +17,7 @@ import (
 	"github.com/Flowpack/prunner/taskctl"
 
 	"verif/internal/ev"
+	"verif/internal/pfield"
 )
 
 // Bursts of schedule requests that overlap in time (C05, C07). The requests of a burst are identical, so
@@ -245,7 +246,7 @@ func burstCase(rt *rapid.T, prop string, col *ev.Collector, forceReplaceDelay bo
 			waiting := false
 			_ = pr.ReadJob(id, func(j *prunner.PipelineJob) { waiting = j.Start == nil && !j.Canceled })
 			if waiting && delay {
-				pr.StartDelayedJob(id)
+				pfield.FireStartTimer(pr, id, "p")
 			}
 		}
 		done := true
